@@ -10,6 +10,21 @@ use tower_lsp::lsp_types::{Position, Range, TextDocumentContentChangeEvent};
 
 const K: usize = 3;
 
+/// one representative per (UTF-8 length, UTF-16 length, newline-ness) class
+fn any_class_char() -> char {
+    let k: u8 = kani::any();
+    kani::assume(k < 7);
+    match k {
+        0 => 'a',
+        1 => '\n',
+        2 => '\r',
+        3 => '\u{e9}',
+        4 => '\u{20ac}',
+        5 => '\u{1f600}',
+        _ => ' ',
+    }
+}
+
 fn text_of(chars: &[char; K], from: usize, to: usize, out: &mut String) {
     let mut i = from;
     while i < to {
@@ -34,15 +49,15 @@ fn ref_pos(chars: &[char; K], k: usize) -> Position {
     Position { line, character: col }
 }
 
-// @unit id=lsp.apply_change props=C14 tier=quick kind=bounded bound="texts of exactly 3 chars (full char domain), one ranged change over every boundary pair, inserted text <= 1 char" timeout=2400 fn=apply_content_changes,position_to_offset
+// @unit id=lsp.apply_change props=C14 tier=quick kind=bounded bound="texts of exactly 3 chars, each one of 7 class representatives (ASCII, LF, CR, 2-byte, 3-byte, astral, space); one ranged change over every boundary pair, inserted text <= 1 class char" timeout=2400 fn=apply_content_changes,position_to_offset
 #[kani::proof]
-#[kani::unwind(16)]
+#[kani::unwind(7)]
 fn lsp_apply_change() {
-    let chars: [char; K] = [kani::any(), kani::any(), kani::any()];
-    let n: usize = K; // constant length (a symbolic length doubles CBMC's memory); shorter texts: thorough tier of lsp_utils
+    let chars: [char; K] = [any_class_char(), any_class_char(), any_class_char()];
+    let n: usize = K; // constant length (a symbolic length doubles CBMC's memory)
     let (i, j): (usize, usize) = (kani::any(), kani::any());
     kani::assume(i <= j && j <= n);
-    let ins: char = kani::any();
+    let ins: char = any_class_char();
     let has_ins: bool = kani::any();
     let mut original = String::new();
     text_of(&chars, 0, n, &mut original);
@@ -69,7 +84,7 @@ fn lsp_apply_change() {
 // a full-document change replaces the text
 // @unit id=lsp.apply_full_change props=C14 tier=quick kind=bounded bound="texts of <= 3 chars" timeout=900 fn=apply_content_changes
 #[kani::proof]
-#[kani::unwind(16)]
+#[kani::unwind(7)]
 fn lsp_apply_full_change() {
     let chars: [char; K] = [kani::any(), kani::any(), kani::any()];
     let n: usize = kani::any();
@@ -84,13 +99,13 @@ fn lsp_apply_full_change() {
 
 // Two ranged changes in ONE notification: the second range is resolved against the text produced by
 // the first (LSP: changes apply in order to the evolving document).
-// @unit id=lsp.apply_two_changes props=C14 tier=quick kind=bounded bound="text of 2 symbolic ASCII non-newline chars; two insertions of one concrete char at symbolic boundaries" timeout=2400 fn=apply_content_changes,position_to_offset
+// @unit id=lsp.apply_two_changes props=C14 tier=quick kind=bounded bound="text pq; two insertions of one concrete char at symbolic boundaries (every pair)" timeout=2400 fn=apply_content_changes,position_to_offset
 #[kani::proof]
-#[kani::unwind(16)]
+#[kani::unwind(7)]
 fn lsp_apply_two_changes() {
-    let a: u8 = kani::any();
-    let b: u8 = kani::any();
-    kani::assume(a >= 0x20 && a < 0x7f && b >= 0x20 && b < 0x7f);
+    // concrete two-char text (the property of this harness is the ORDER of application, not the encoding)
+    let a: u8 = b'p';
+    let b: u8 = b'q';
     let mut original = String::new();
     original.push(a as char);
     original.push(b as char);
